@@ -1,7 +1,14 @@
 package main
 
 import (
+	"encoding/json"
+	"fmt"
+	"github.com/bilibili/gengine/builder"
+	"github.com/bilibili/gengine/engine"
+	"github.com/bilibili/gengine/verifrt/vsched"
 	"time"
+	"verif/harness/gx"
+	"verif/harness/ref"
 
 	"verif/harness/hx"
 )
@@ -168,7 +175,7 @@ func init() {
 		BudgetQuick: 150 * time.Second,
 		BudgetThor:  25 * time.Minute,
 		Kind:        "schedules",
-		Rule: "rule set of 4 rules (strict saliences; one tie with names out of salience order) x every name list of length 0..4 without repetition over {r0,r1,r2,r3,unknown} (206 lists incl. all permutations) x all 11 selected variants x policy x (N,M) with N+M in {len-1,len,len+1} x failing subset of size <=1; plus every list of length 2..4 over {r0,r1,r2,unknown} that repeats a name; " +
+		Rule: "rule set of 4 rules (strict saliences; one tie with names out of salience order) x every name list of length 0..4 without repetition over {r0,r1,r2,r3,unknown} (206 lists incl. all permutations) x all 11 selected variants x policy x (N,M) with N+M in {len-1,len,len+1} x failing subset of size <=1; plus every list of length 2..4 over {r0,r1,r2,unknown} that repeats a name; plus call histories: the same selected call on one engine and builder before and after an in-place incremental update (salience change, body replacement, a formerly unknown name added); " +
 			"sequential variants: one deterministic execution each; concurrent/mix/inverse/N-M variants: every schedule with <=1 (thorough 2) preemptions; oracle = staged reference plan on exactly the named existing rules (sorted / as-given order, unknown skipped, fail-without-running cases, no unselected rule ever runs)",
 		Assume: []string{"injected observer functions terminate", "for name lists that repeat a name only 'no unselected rule runs / every named existing rule runs / nothing selectable fails' is judged (the statement does not say how often a repeated name runs)"},
 		Run: func(c *hx.Ctx) {
@@ -192,7 +199,129 @@ func init() {
 				}
 				hx.Explore("C12", modelScenario(cfg), hx.ExploreCfg{Bound: b, Prune: true, Deadline: c.Deadline}, c.Res)
 			}
+			for i, hc := range selHistConfigs() {
+				if c.Mine(i) {
+					hx.Explore("C12", selHistScenario(hc), hx.ExploreCfg{Bound: 0, DefaultOnly: true}, c.Res)
+				}
+			}
 		},
-		Rebuild: rebuildModel,
+		Rebuild: func(v *hx.Violation) *hx.Scenario {
+			if v.Scenario == "c12hist" {
+				var hc selHistCfg
+				json.Unmarshal(v.Cfg, &hc)
+				return selHistScenario(hc)
+			}
+			return rebuildModel(v)
+		},
 	})
+}
+
+// ---- the same selected call before and after an incremental update on one engine + builder ----
+
+type selHistCfg struct {
+	Model string   `json:"model"`
+	B     bool     `json:"b"`
+	Names []string `json:"names"`
+	Upd   string   `json:"upd"` // resal | replace | add
+}
+
+type selHistState struct {
+	log1, log2 *gx.Log
+	err1, err2 error
+	pan        interface{}
+}
+
+func selHistRules() []gx.RuleSpec {
+	return []gx.RuleSpec{{Name: "r0", ID: 1, Salience: 9}, {Name: "r1", ID: 2, Salience: 7}, {Name: "r2", ID: 3, Salience: 5}}
+}
+
+func selHistUpdate(kind string) gx.RuleSpec {
+	switch kind {
+	case "resal":
+		return gx.RuleSpec{Name: "r2", ID: 13, Salience: 8}
+	case "replace":
+		return gx.RuleSpec{Name: "r1", ID: 12, Salience: 7}
+	}
+	return gx.RuleSpec{Name: "zz", ID: 14, Salience: 6}
+}
+
+func selHistScenario(cfg selHistCfg) *hx.Scenario {
+	template := gx.MustCompile(gx.RulesText(selHistRules()))
+	upd := selHistUpdate(cfg.Upd)
+	refs := func(after bool) []ref.RuleRef {
+		var rs []ref.RuleRef
+		for _, r := range selHistRules() {
+			if after && r.Name == upd.Name {
+				continue
+			}
+			rs = append(rs, ref.RuleRef{ID: r.ID, Name: r.Name, Sal: r.Salience})
+		}
+		if after {
+			rs = append(rs, ref.RuleRef{ID: upd.ID, Name: upd.Name, Sal: upd.Salience})
+		}
+		return rs
+	}
+	p := ref.Params{B: cfg.B, Names: cfg.Names}
+	plans1, _ := ref.Plans(cfg.Model, refs(false), p)
+	plans2, _ := ref.Plans(cfg.Model, refs(true), p)
+	m := gx.ModelByName(cfg.Model)
+	return &hx.Scenario{
+		Name: "c12hist",
+		Cfg:  cfg,
+		New:  func() interface{} { return &selHistState{log1: &gx.Log{}, log2: &gx.Log{}} },
+		Body: func(s interface{}) {
+			st := s.(*selHistState)
+			rb := gx.DeepClone(template).(*builder.RuleBuilder) // private builder: the update is in place
+			g := engine.NewGengine()
+			run := func(l *gx.Log) (error, interface{}) {
+				rb.Dc.Add("ev", l.Ev)
+				rb.Dc.Add("boom", l.Boom)
+				return gx.CallGuarded(func() error { return m.Call(g, rb, gx.Params{B: cfg.B, Names: cfg.Names}) })
+			}
+			st.err1, st.pan = run(st.log1)
+			if st.pan != nil {
+				return
+			}
+			if err := rb.BuildRuleWithIncremental(upd.Text()); err != nil {
+				vsched.InternalError("incremental build: %v", err)
+			}
+			st.err2, st.pan = run(st.log2)
+		},
+		Check: func(s interface{}, ex *vsched.Exec) (fs []hx.Finding) {
+			st := s.(*selHistState)
+			raw, _ := json.Marshal(cfg)
+			desc := fmt.Sprintf("\n  cfg=%s\n  before the update: log=[%s] err=%v\n  after the incremental update of %s (id %d, salience %d): log=[%s] err=%v", raw, st.log1, st.err1, upd.Name, upd.ID, upd.Salience, st.log2, st.err2)
+			if ex.Verdict != "" || st.pan != nil {
+				return []hx.Finding{{Sig: "c12:hist:" + cfg.Model + ":did-not-complete", Msg: fmt.Sprintf("verdict %q panic %v", ex.Verdict, st.pan) + desc}}
+			}
+			if c := ref.Judge(plans1, toRefLog(st.log1), st.err1 != nil); c != "" {
+				fs = append(fs, hx.Finding{Sig: "c12:hist:" + cfg.Model + ":first:" + sigOf(c), Msg: "first call: " + c + desc})
+			}
+			if c := ref.Judge(plans2, toRefLog(st.log2), st.err2 != nil); c != "" {
+				fs = append(fs, hx.Finding{Sig: "c12:hist:" + cfg.Model + ":after-update:" + sigOf(c), Msg: "the same selected call after an incremental update does not run the named rules of the CURRENT set: " + c + desc})
+			}
+			return
+		},
+	}
+}
+
+func selHistConfigs() []selHistCfg {
+	var out []selHistCfg
+	for _, m := range selectedModels {
+		if m.nm {
+			continue
+		}
+		for _, names := range [][]string{{"r2", "r0", "r1"}, {"r1", "r2"}, {"zz", "r0", "r2"}, {"r2"}} {
+			for _, u := range []string{"resal", "replace", "add"} {
+				bs := []bool{true}
+				if m.policy {
+					bs = []bool{true, false}
+				}
+				for _, b := range bs {
+					out = append(out, selHistCfg{Model: m.name, B: b, Names: names, Upd: u})
+				}
+			}
+		}
+	}
+	return out
 }
